@@ -3096,6 +3096,12 @@ def replace_collection_add_update_with_collection_literal(source: str) -> str:
         core.walk_sequence(root, *template, expand_last=True)
     ):
         assigned_value = node.root.value
+        if any(
+            m[0].value.func.attr in {"append", "add"} and len(m[0].value.args) != 1
+            for m in matches
+        ):
+            continue  # x.append() and x.add(1, 2) raise TypeError when they run, there is no element
+
         other_elts = []
         for m in matches:
             if m[0].value.func.attr in {"append", "add"}:
